@@ -26,6 +26,10 @@ type scen struct {
 	// seal); the node makes the first its head, then switches to the second, which stays canonical.
 	// Whatever prime computes for a block (roll-ups, conversion repricing) is thereby computed twice.
 	forkPrimes bool
+	// forkAll: the same for EVERY block (zone-, region- and prime-order): each block of the history
+	// is first followed as b1 and then reorganised away in favour of its sibling b2. The history the
+	// node ends up with is content-wise the plain one, but every block's effects were rolled back once.
+	forkAll bool
 }
 
 // opts hands the pending foreign transactions to the next build.
@@ -68,7 +72,7 @@ func (s *scen) close() { s.n.Close() }
 
 // mine appends one block of the given order built by the node's own worker.
 func (s *scen) mine(o core.VBuildOpts) (*types.WorkObject, error) {
-	if s.forkPrimes && o.Order == 0 && s.n.Cfg.Levels == 3 {
+	if (s.forkAll || (s.forkPrimes && o.Order == 0)) && s.n.Cfg.Levels == 3 {
 		o1, o2 := o, o
 		o1.Salt, o2.Salt = o.Salt+1011, o.Salt+2023
 		p1, err := s.n.Build(o1)
@@ -86,7 +90,7 @@ func (s *scen) mine(o core.VBuildOpts) (*types.WorkObject, error) {
 			return p1, core.VOwnBlockRejected{Err: r.Err()}
 		}
 		if r := s.n.Append(p2); r.Err() != nil {
-			return p2, core.VOwnBlockRejected{Err: fmt.Errorf("switch to the sibling prime block: %w", r.Err())}
+			return p2, core.VOwnBlockRejected{Err: fmt.Errorf("switch to the sibling block: %w", r.Err())}
 		}
 		s.blocks = append(s.blocks, p2)
 		return p2, nil
